@@ -141,7 +141,8 @@ def count_programs(tier, seed, start):
                             # (a sibling of a branch that fails in step 0 may be dropped unpolled by futures::try_join!)
                             L.append("vassert!(cnt(%d) <= 1 && (fs == 0 || cnt(%d) == 1), \"C10[%s]: initial future is entered exactly once (at most once when step 0 fails)\");" % (E(b, 0, 0), E(b, 0, 0), pid))
                         else:
-                            L.append("vassert!(cnt(%d) == (fs >= %d) as u8 && cnt(%d) == (fs >= %d) as u8, \"C10[%s]: capture and callback of a reached step run exactly once (async)\");" % (CAP(b, s), s, E(b, s, 0), s, pid))
+                            # (in the failing step itself a sibling of the failing branch may be dropped unpolled by futures::try_join!)
+                            L.append("vassert!(cnt(%d) == (fs >= %d) as u8 && cnt(%d) <= 1 && (fs <= %d || cnt(%d) == 1) && (fs >= %d || cnt(%d) == 0), \"C10[%s]: capture of a reached step runs exactly once; its callback exactly once when the step completes, never when it is not reached (async)\");" % (CAP(b, s), s, E(b, s, 0), s, E(b, s, 0), s, E(b, s, 0), pid))
                         continue
                     if s == 0:
                         L.append("vassert!(cnt(%d) == 1, \"C10[%s]: every initial expression is evaluated exactly once\");" % (INIT(b), pid))
